@@ -6,7 +6,7 @@ set_option linter.unusedSectionVars false
 set_option linter.unusedVariables false
 namespace Frappy.Lemmas.C01
 open FloatOps DType Frappy.Datatypes Frappy.Spec.C01
-open PVal (toFloat? seqItems? prevItems prevFields dictGet dictSet)
+open PVal (toFloat? seqItems? prevItems prevFields dictGet dictSet isNone given notOffered)
 
 variable {F : Type} [FloatOps F]
 
@@ -176,6 +176,14 @@ theorem foldFields_ok {f : String → PVal F → Option (Res F)} {M : String →
             rcases hk with hk | hk
             · exact Or.inl (mem_keys_dictSet.2 (Or.inl hk))
             · exact Or.inr hk
+
+theorem structFold_ok {f : String → PVal F → Option (Res F)} {items kept res : List (String × PVal F)}
+    (h : structFold f items kept = .ok res) :
+    ∃ acc0, foldFields f kept [] = .ok acc0 ∧ foldFields f items acc0 = .ok res := by
+  unfold structFold at h
+  split at h
+  · cases h
+  · rename_i acc0 h0; exact ⟨acc0, h0, h⟩
 
 /-- `structCheck` guarantees the mandatory members among the given keys -/
 theorem structCheck_mandatory {names opt : List String} {allow : Bool} {items : List (String × PVal F)}
